@@ -190,8 +190,16 @@ def pagingOp (j : Json) : Except String Res := do
       | some (Json.arr parts) => parts[1]? == some (Json.bool true)
       | _ => false) && fails.isEmpty
     let completeOk := !endedClean || items == truth
+    -- a continuation is only returned together with the full requested amount
+    let implRounds : List Json := match impl with | Json.arr r => r.toList | _ => []
+    let reqNs : List Nat := reqs.toList.map fun q => (q.getNat?).toOption.getD 0
+    let contOk := (implRounds.zip reqNs).all fun (rd, n) => match rd with
+      | Json.arr parts => match parts[0]?, parts[1]? with
+        | some (Json.arr tags), some (Json.bool ended) => ended || (tags.size == n && tags.all fun t => !isFail t)
+        | _, _ => false
+      | _ => false
     pure { model := Json.arr out,
-           preds := [("delivered_is_prefix_of_true_sequence", prefixOk),
+           preds := [("delivered_is_prefix_of_true_sequence", prefixOk), ("continuation_means_full_request", contOk),
                      ("refusal_only_after_consecutive_empties", refusalOk),
                      ("clean_end_means_complete", completeOk)],
            nontrivial := pagesSeen ≥ 3 }
@@ -254,7 +262,17 @@ def spliceOp (j : Json) : Except String Res := do
       | some (Json.arr tags), some (Json.bool nil) => tags.size ≥ q || nil
       | _, _ => false
     | _ => false
-  pure { model := Json.arr out, preds := [("short_delivery_ends_feed", shortOk)],
+  -- the same position asked twice gives the same answer
+  let stepsInfo : List (String × Nat × Nat) := script.toList.map fun stp => match stp with
+    | Json.arr p => (((p[0]?.getD Json.null).getStr?).toOption.getD "", ((p[1]?.getD Json.null).getNat?).toOption.getD 0, ((p[2]?.getD Json.null).getNat?).toOption.getD 0)
+    | _ => ("", 0, 0)
+  let idx := List.range (rounds.length - 1)
+  let againOk := idx.all fun i =>
+    match stepsInfo[i]?, stepsInfo[i + 1]?, rounds[i]?, rounds[i + 1]? with
+    | some (k1, q1, s1), some (_, q2, s2), some r1, some r2 =>
+      !(k1 == "again" && q1 == q2 && s1 == s2) || r1 == r2
+    | _, _, _, _ => true
+  pure { model := Json.arr out, preds := [("short_delivery_ends_feed", shortOk), ("same_position_same_answer", againOk)],
          nontrivial := total ≥ 3 && sources.length ≥ 2 }
 
 end Ops
